@@ -98,6 +98,8 @@ func C11WholeFile() {
 	once("package-comment-kept", "// Package whole carries a package comment that must survive.\npackage whole\n")
 	once("imports-kept", "import (\n\t\"fmt\"\n\t\"strings\"\n)\n")
 	once("declaration-with-comments-kept", "// Before has its own comment before the interfaces.\nvar Before = strings.ToUpper(\"x\") // trailing comment of Before\n")
+	once("prose-next-to-a-directive-kept", "// Mixed keeps its prose although a directive stands in the same comment.\n")
+	once("declaration-after-a-mixed-comment-kept", "\nvar Mixed = 2\n")
 	once("ordinary-interface-kept-with-every-comment-line", "// Repo is an ordinary interface, not a converter.\n// :nodoc:\n// :deprecated use Store instead\ntype Repo interface {\n\t// Get fetches; 100% ordinary.\n\t// :map is no notation here\n\tGet(id int) *Src\n}\n")
 	once("function-with-comments-kept", "// Middle sits between the converter interfaces.\nfunc Middle() string {\n\t// a comment inside a function body\n\treturn fmt.Sprint(Before)\n}\n")
 	once("block-and-field-comments-kept", "/* Trailing has a block comment. */\ntype Trailing struct {\n\tX int // field comment\n}\n")
@@ -138,7 +140,7 @@ func C11WholeFile() {
 		absent("no-function-for-ordinary-interface", "func Third(")
 	}
 	// ---- in place: the order of the surrounding declarations and the functions is the source order
-	order := []string{"package whole", "import (", "var Before", "type Repo interface", "func First(", "func Second(", "func Middle(", "Third(", "type Trailing struct"}
+	order := []string{"package whole", "import (", "var Before", "var Mixed", "type Repo interface", "func First(", "func Second(", "func Middle(", "Third(", "type Trailing struct"}
 	last := -1
 	for _, o := range order {
 		at := strings.Index(content, o)
